@@ -241,7 +241,27 @@ OPS = {
     'where': lambda x, p: np.where(x[0] != 0, x[1], x[2]),
     'bcast': lambda x, p: np.broadcast_to(x[0], p['bshape']),
     'reshape_v': lambda x, p: x[0].reshape(1, -1) if x[0].ndim == 1 else x[0],
+    # number-valued views: reduction over ALL axes, keepdims false (a 0-d result that broadcasts like a scalar)
+    'reduce_add_all': lambda x, p: np.sum(x[0]),
+    'reduce_max_all': lambda x, p: np.max(x[0]),
 }
+PSEUDO = {'bcast', 'reshape_v', 'concatenate0'}      # python-only helper nodes (no functor of their own / a different functor structure)
+NUMBER_VALUED = {'reduce_add_all', 'reduce_max_all'}
+
+
+def tree_ops(t):
+    """operations of a term, or None when it contains python-only helper nodes"""
+    name, args = t
+    if not args:
+        return 0
+    if name in PSEUDO:
+        return None
+    sub = [tree_ops(a) for a in args]
+    return None if any(x is None for x in sub) else 1 + sum(sub)
+
+
+def has_number_valued(t):
+    return t[0] in NUMBER_VALUED or any(has_number_valued(a) for a in t[1])
 
 
 def eval_term(t, env, params):
@@ -284,11 +304,12 @@ def perm(rng, n):
 def _ext_progs():
     pr = {}
 
-    def add(name, group, tree, gen, graph=False, nonfirst=False, bview=False, sibling=False, data='prov'):
+    def add(name, group, tree, gen, graph=False, nonfirst=False, bview=False, sibling=False, data='prov', nfun=None):
         # nonfirst: a view operand that is not the first operand; bview: binary ufunc over a view operand (regression class of the
         # repaired dangling reference in get_function_composition: ordinary in-domain programs);
         # sibling: two sibling sub-views over un-aliased leaves (compute-graph node ids collide)
-        pr[name] = dict(group=group, tree=tree, gen=gen, graph=graph, nonfirst=nonfirst, bview=bview, sibling=sibling, data=data)
+        # nfun: number of functors the extracted composition must have when that is not the number of operations of `tree`
+        pr[name] = dict(group=group, tree=tree, gen=gen, graph=graph, nonfirst=nonfirst, bview=bview, sibling=sibling, data=data, nfun=nfun)
 
     def g_tr(rng):
         s = rshape(rng); return [s], dict(axes=perm(rng, len(s)))
@@ -384,12 +405,42 @@ def _ext_progs():
     add('d4_add_nmn_sxn', 10, 'add(negative(multiply(negative(0),1)),subtract(2,negative(3)))', g_quad, nonfirst=True)
     add('d4_sum_add_x_tr_neg', 10, 'reduce_add(add(0,transpose(negative(1))))', g_sum_add_x_tr, nonfirst=True)
     add('d4_neg_sub_mul_neg', 10, 'negative(subtract(multiply(negative(0),1),2))', g_tri, bview=True)
+    # ---- NUMBER-valued sub-views: reduce_add_all / reduce_max_all = reduction over all axes (axis None, keepdims false), an
+    #      `is_num_v` view, as an operand of a broadcasting binary ufunc (which looks through the broadcast_to around it) ----
+    def g_free2(rng):
+        return [rshape(rng), rshape(rng)], {}
+    def g_one(rng):
+        return [rshape(rng)], {}
+    def g_sum_free(rng):
+        s = rshape(rng, min_rank=2); return [s, rshape(rng)], dict(axis=rng.randrange(len(s)))
+    def g_pair_free(rng):
+        s = rshape(rng); return [s, bpartner(rng, s), rshape(rng)], {}
+    def g_free_pair(rng):
+        s = rshape(rng); return [rshape(rng), s, bpartner(rng, s)], {}
+    def g_free_tr(rng):
+        s = rshape(rng); return [rshape(rng), s], dict(axes=perm(rng, len(s)))
+    def g_free_axis(rng):
+        s = rshape(rng, min_rank=2); return [rshape(rng), s], dict(axis=rng.randrange(len(s)))
+    add('mul_sumall_x', 11, 'multiply(reduce_add_all(0),1)', g_free2, graph=True, bview=True)
+    add('sub_maxall_x', 11, 'subtract(reduce_max_all(0),1)', g_free2, bview=True)
+    add('mul_vsumall_x', 11, 'multiply(reduce_add_all(0),1)', g_free2, bview=True)             # view::sum(a, None)
+    add('add_x_maxall', 11, 'add(0,reduce_max_all(1))', g_free2, nonfirst=True)
+    add('sub_sumall_x_rep', 11, 'subtract(reduce_add_all(0),0)', g_one, bview=True)           # repeated leaf
+    add('sub_x_sumall_rep', 11, 'subtract(0,reduce_add_all(0))', g_one, nonfirst=True)
+    add('mul_sumall_neg_x', 11, 'multiply(reduce_add_all(negative(0)),1)', g_free2, bview=True)
+    add('mul_sumall_sum_x', 11, 'multiply(reduce_add_all(reduce_add(0)),1)', g_sum_free, bview=True)
+    add('neg_mul_sumall_mul_x', 12, 'negative(multiply(reduce_add_all(multiply(0,1)),2))', g_pair_free, bview=True)
+    add('add_mul_sumall_x_x', 12, 'add(multiply(reduce_add_all(0),1),2)', g_free_pair, bview=True)
+    add('tr_add_maxall_x', 12, 'transpose(add(reduce_max_all(0),1))', g_free_tr, bview=True)
+    add('mul_x_sumall_mul', 12, 'multiply(0,reduce_add_all(multiply(1,2)))', g_free_pair, nonfirst=True)
+    add('sum_mul_maxall_x', 12, 'reduce_add(multiply(reduce_max_all(0),1))', g_free_axis, bview=True)
+    add('al_mul_sumall', 12, 'multiply(reduce_add_all(a0),a1)', g_free2, graph=True, bview=True)
     return pr
 
 
 EXT = _ext_progs()
-EXT_GROUPS = [1, 2, 3, 4, 5, 6, 7, 8, 9, 10]
-SAN_GROUPS = [2, 3, 5, 6, 7, 8, 10]      # the groups with binary ufuncs over view operands / depth 3-4 trees
+EXT_GROUPS = [1, 2, 3, 4, 5, 6, 7, 8, 9, 10, 11, 12]
+SAN_GROUPS = [2, 3, 5, 6, 7, 8, 10, 11, 12]      # the groups with binary ufuncs over view operands / depth 3-4 trees
 
 
 def parse_kv(ans):
@@ -512,7 +563,6 @@ def ext_cases(tier, rng):
     for name, pg in EXT.items():
         t = parse_term(pg['tree'])
         h = 'h_c14_ext%d' % pg['group']
-        tplain = re.sub(r'\ba(\d+)', r'\1', pg['tree'])
         made = tries = 0
         while made < ncase and tries < 10 * ncase:
             tries += 1
@@ -528,9 +578,12 @@ def ext_cases(tier, rng):
             req = ' '.join(('c14_extract prog=%s shapes=%s %s data=%s' % (name, fmt_lists(shapes), fmt_params(params), pg['data'])).split())
             off = pg['nonfirst']
             # fn::apply demands (static_assert) that the arity of the extracted function is the number of extracted operands
-            oracle = 'ok leaves=%s arity=%d result=%s' % (fmt(tree_leaves(t)), len(tree_leaves(t)), fmt_arr(res))
-            yield Case(req, h, dom=not off, oracle=oracle, mreq='c14_extract tree=%s' % tplain, cmp=make_extract_cmp(env, params),
-                       tags=['extract', 'prog=' + name, 'depth=%d' % tree_depth(t)] + (['nonfirst'] if pg['nonfirst'] else []) + (['bview'] if pg['bview'] else []))
+            # … and one functor per operation of the view tree (Props.C14.compile_one_functor_per_op)
+            nf = pg['nfun'] if pg['nfun'] is not None else tree_ops(t)
+            oracle = 'ok leaves=%s arity=%d%s result=%s' % (fmt(tree_leaves(t)), len(tree_leaves(t)), '' if nf is None else ' nfun=%d' % nf, fmt_arr(res))
+            yield Case(req, h, dom=not off, oracle=oracle, mreq='c14_extract tree=%s' % pg['tree'], cmp=make_extract_cmp(env, params),
+                       tags=['extract', 'prog=' + name, 'depth=%d' % tree_depth(t)] + (['nonfirst'] if pg['nonfirst'] else []) + (['bview'] if pg['bview'] else [])
+                            + (['number-valued-view'] if has_number_valued(t) else []))
             if pg['graph'] and made <= 2:
                 greq = ' '.join(('c14_graph prog=%s shapes=%s %s data=%s' % (name, fmt_lists(shapes), fmt_params(params), pg['data'])).split())
                 yield Case(greq, h, dom=not pg['sibling'], oracle=ideal_graph(t), mreq='c14_graph tree=%s' % pg['tree'], cmp=graph_cmp,
